@@ -161,6 +161,7 @@ ETH& add_result(const Step& s, ET&& aut, int alpha, uint64_t origin = 0) {
 	// was; a client that uses its own alphabet re-attaches it before it reads symbol names
 	if (alpha > 0) aut.SetAlphabet(alpha_obj(alpha));
 	TA got = read_back(aut);
+	observe(got.hash());      // concrete result (state numbers included): must not depend on memory noise
 	return add_handle(CL(s), std::move(aut), got, alpha, origin);
 }
 
